@@ -413,8 +413,13 @@ __wrap_pthread_create(pthread_t *pt, const pthread_attr_t *attr, void *(*fn)(voi
 	sc_point_ex(OP_GENERIC, NULL, 0, "pthread_create");
 	if (kth_fail(6))
 		return (EAGAIN);
-	if (0 != (sc_fault_mask & SC_F_PTHREAD_CREATE) && 0 != sc_choose(2, "pthread_create:fault"))
+	if (0 != (sc_fault_mask & SC_F_PTHREAD_CREATE) && 0 != sc_choose(2, "pthread_create:fault")) {
+		/* glibc stores the would-be handle into *thread BEFORE it tries to start the thread and
+		 * leaves it there when that fails: do the same, so that code which later trusts the
+		 * handle is seen. */
+		*pt = (pthread_t)0xdead0000beef00ul;
 		return (EPERM); /* a non-EAGAIN failure: no retry loop */
+	}
 	if (sc_nthr >= SC_MAX_THREADS)
 		sc_end(SC_V_DIVERGED, "harness", "too many threads");
 	id = sc_nthr ++;
@@ -510,6 +515,9 @@ __wrap_pthread_mutex_unlock(pthread_mutex_t *m) {
 
 	if (!sc_active || sc_my_id < 0)
 		return (__real_pthread_mutex_unlock(m));
+	/* Still inside the critical section: another thread that reads the protected data WITHOUT the
+	 * lock (an "optimised" fast path) can run here and see the half-finished update. */
+	sc_point_ex(OP_GENERIC, NULL, 0, "mutex_unlock.before");
 	rc = __real_pthread_mutex_unlock(m);
 	mx = mtx_find(m, 0);
 	if (NULL != mx && mx->owner == sc_my_id) {
